@@ -2,7 +2,9 @@ package logger
 
 import (
 	"context"
+	"fmt"
 	"log/slog"
+	"reflect"
 )
 
 // Options is the common options for all handlers.
@@ -49,4 +51,19 @@ type Handler interface {
 	WithAttrs(attrs []slog.Attr) Handler
 	WithGroup(name string) Handler
 	Handle(context.Context, slog.Record) error
+}
+
+// errorString returns err.Error(). Like fmt and log/slog, it tolerates an Error method that panics:
+// a nil pointer receiver is rendered as "<nil>", any other panic as "!PANIC: ...".
+func errorString(err error) (s string) {
+	defer func() {
+		if r := recover(); r != nil {
+			if v := reflect.ValueOf(err); v.Kind() == reflect.Pointer && v.IsNil() {
+				s = "<nil>"
+			} else {
+				s = fmt.Sprintf("!PANIC: %v", r)
+			}
+		}
+	}()
+	return err.Error()
 }
